@@ -16,7 +16,7 @@ def nontrivial(case, info, qk, row):
 def run(ctx):
     count = 250 if ctx.tier == "quick" else 5000
     cases = answers.load_corpus("C02")
-    cases += answers.gen_cases(ctx, count, (1, 6), (1, 7), [False], rekey=0.3, big=0.08)
+    cases += answers.gen_cases(ctx, count, (1, 6), (1, 7), [False, False, False, False, True], strong_only=True, rekey=0.3, big=0.08)
     # knowledge bases shipped with the repository (examples/random_large: 6-12 atoms, deeply nested formulas), parsed by the real parser
     cases += answers.shipped_cases(ctx, 8 if ctx.tier == "quick" else 120, (6, 10) if ctx.tier == "quick" else (6, 12), [False])
     if ctx.tier == "thorough":
